@@ -3,8 +3,8 @@
    gmrf_neumann_ok check exactly the hypotheses below on the implementation's read-off map T).
    A draw is s = mu + T e, e standard normal, so its mean is mu and its covariance T T^T. *)
 From mathcomp Require Import all_ssreflect all_algebra.
-From CVmc Require Import C05_Cov C05_Link.
-Import GRing.Theory.
+From CVmc Require Import C05_Cov C05_Link C05_Eps.
+Import Order.TTheory GRing.Theory Num.Theory.
 Local Open Scope ring_scope.
 
 (* Gaussian: whenever the selected solver returns T with S T = I for the stored square root S of the precision
@@ -53,6 +53,52 @@ Theorem C05_gmrf_neumann_cov_eps : forall (F : fieldType) (n m : nat) (D : 'M[F]
   prec *: (P *m C *m P) = P - prec *: (eps *: (P *m C + C *m P) + (eps * eps) *: C).
 Proof. exact gmrf_neumann_cov_eps. Qed.
 Print Assumptions C05_gmrf_neumann_cov_eps.
+
+(* ---------------- third deepening round: the EXACT law of the neumann / repaired periodic draws and its distance to the documented one ----------------
+   Over any ordered field, with only the sign conditions the code guarantees (eps = sqrt(machine eps) > 0, prec > 0; P = D^T D has
+   eigenvalues lam >= 0): the draws are N(mean, C) with, on every eigen-direction P v = lam v,
+        C v = lam / (prec (lam + eps)^2) v                    (eps_var prec eps lam)
+   -- the regularised matrix is invertible (proved, not assumed), there is NO variance on the null space of P (exactly as for the
+   pseudo-inverse of the documented singular precision prec P), and for lam > 0 the variance is the documented 1/(prec lam) times
+   1 - rel with  rel = eps (2 lam + eps)/(lam + eps)^2,  0 < rel < min(1, 2 eps / lam).
+   Together with a spectral decomposition of P (real symmetric: an orthonormal eigenbasis exists; that existence is NOT formalised
+   here) this is the whole covariance; the limit eps -> 0 of each eigen-variance is immediate from rel < 2 eps / lam. *)
+Theorem C05_gmrf_eps_law : forall (R : realFieldType) (n m : nat) (D : 'M[R]_(m, n)) (T : 'M[R]_(n, m)) (r prec eps lam : R) (v : 'cV[R]_n),
+  let P := D^T *m D in let Pe := P + eps%:M in let C := T *m T^T in
+  0 < eps -> 0 < prec -> 0 <= lam -> r * r = prec -> (r *: Pe) *m T = D^T ->
+  P *m v = lam *: v ->
+  Pe \in unitmx /\ C *m v = eps_var prec eps lam *: v /\ (lam = 0 -> C *m v = 0).
+Proof.
+move=> R n m D T r prec eps lam v P Pe C He Hp Hl Hr HT Hv.
+have E := gmrf_eps_eigen_real He Hp Hl Hr HT Hv.
+split; first exact: reg_unit.
+split=> // L0; rewrite E /eps_var L0 mul0r scale0r //.
+Qed.
+Print Assumptions C05_gmrf_eps_law.
+
+Theorem C05_gmrf_eps_deviation : forall (R : realFieldType) (prec eps lam : R), 0 < prec -> 0 < eps -> 0 < lam ->
+  let rel := eps * (2%:R * lam + eps) / (lam + eps) ^+ 2 in
+  eps_var prec eps lam = doc_var prec lam * (1 - rel) /\ 0 < rel /\ rel < 2%:R * eps / lam /\ rel < 1.
+Proof. exact eps_var_deviation. Qed.
+Print Assumptions C05_gmrf_eps_deviation.
+
+(* the same eigen-direction identity over any field, under the invertibility / non-vanishing hypotheses it needs there *)
+Theorem C05_gmrf_eps_eigen_field : forall (F : fieldType) (n m : nat) (D : 'M[F]_(m, n)) (T : 'M[F]_(n, m)) (r prec eps lam : F) (v : 'cV[F]_n),
+  let P := D^T *m D in let Pe := P + eps%:M in let C := T *m T^T in
+  r * r = prec -> (r *: Pe) *m T = D^T -> Pe \in unitmx -> prec != 0 -> lam + eps != 0 ->
+  P *m v = lam *: v -> C *m v = eps_var prec eps lam *: v.
+Proof. exact gmrf_eps_eigen. Qed.
+Print Assumptions C05_gmrf_eps_eigen_field.
+
+(* hypotheses satisfiable: D = I (order 0), r = prec = 1, T = (1 + eps)^-1 I, every vector is an eigenvector with lam = 1 *)
+Example C05_gmrf_eps_example : forall (R : realFieldType) (n : nat) (eps : R) (v : 'cV[R]_n), 0 < eps ->
+  let D : 'M[R]_n := 1%:M in let T : 'M[R]_n := ((1 + eps)^-1)%:M in
+  (1 : R) * 1 = 1 /\ ((1 : R) *: (D^T *m D + eps%:M)) *m T = D^T /\ (D^T *m D) *m v = 1 *: v.
+Proof.
+move=> R n eps v He D T; rewrite /D /T trmx1 !mulmx1 scale1r mul1mx mulr1 scale1r; split=> //; split=> //.
+have N : 1 + eps != 0 by rewrite gt_eqF // addr_gt0 // ltr01.
+by rewrite mul_mx_scalar scalerDr !scale_scalar_mx -(raddfD (scalar_mx_additive R n)) /= -mulrDr mulVf.
+Qed.
 
 (* what a spectral (DFT-type) sampler must do: pair each weight with the eigenvalue of the SAME basis vector *)
 Theorem C05_spectral_pairing : forall (F : fieldType) (n : nat) (U L W2 : 'M[F]_n),
